@@ -301,7 +301,7 @@ inductive RunStatus where
   deriving Repr, Inhabited
 
 /-- `ok.TypeID == octosql.TypeIDBoolean && ok.Boolean` -/
-def isTrue : Res → Bool
+def isTrueRes : Res → Bool
   | .val (.bool true) => true
   | _ => false
 
